@@ -1,5 +1,7 @@
 import ZenonVerif.Lemmas.NodeReorg
 import ZenonVerif.Props.C02Node
+import ZenonVerif.Gen.NodeReorg
+import ZenonVerif.Gen.NodeCache
 /-
 C06 / C02 / C16 at the level of the node, in ONE state machine (`Model/NodeReorg.lean`): the node of `Props/C02Node.lean`
 (accepted history + unconfirmed pool, the VM an arbitrary parameter `exec`) whose delivery operation is the whole
@@ -346,7 +348,8 @@ def wAckA : Block := { acct := 7, height := 1, prev := 0, ack := 2, payload := 0
 
 /-- non-vacuity of the reorganisation theorems: a node on branch A (two momentums, a pooled block acknowledging A's
     first momentum) is given branch B (three momentums): accepted, chain = B, the pool is empty; the abandoned branch
-    delivered again is refused as not longer, and accepted once … it cannot be: it IS shorter; B again changes nothing -/
+    delivered again is refused as not longer (it is shorter now); B delivered again, in any order, changes nothing; a side
+    chain of EQUAL height is refused -/
 example :
     (deliverR wVM false (runR wVM [.deliver [wA1, wA2], .gossip wAckA]) [wB1, wB2, wB3]).2 = .ok ∧
     ((runR wVM [.deliver [wA1, wA2], .gossip wAckA]).pool 7).map (·.1.id) = [20] ∧
@@ -392,5 +395,55 @@ theorem reordered_blocks_need_the_pool :
     (stepR wVM (runR wVM []) wReordered).2 = false ∧
     (stepR wVM (runR wVM [.gossip wb1]) wOrdered).2 = true ∧
     (stepR wVM (runR wVM []) wOrdered).2 = true := by decide
+
+/-! ### the shape of the code the model follows (AST of the working tree, regenerated on every run) -/
+
+set_option maxRecDepth 100000 in
+/-- `InsertChain` (model: `deliverR`): the skip loop stops at the first height the node does not hold or holds with another
+    hash; the side-chain `if` stands BEFORE the insert loop and is the only place that calls `RollbackTo` (once, on the
+    target's identifier); inside it, in this order: target by `head.Height - 1`, nil ⇒ link error, identifier ≠ previous ⇒
+    link error, `frontier − target > 30` ⇒ too far (the constant and operator of `Gen.InsertChainWindow` /
+    `InsertChainWindowOp`, which the model uses), `tail.Height <= frontier` ⇒ not longer, THEN the rollback (F7d: before any
+    verification) — all returning index 0; every error test of the insert loop returns `index + start` at once (no
+    continuation after a failed momentum). -/
+theorem reorg_shape_in_code :
+    Gen.nrSkipLoop =
+      ["our, err := store.GetMomentumByHeight(momentums[start].Momentum.Height)", "if err != nil => return start, err",
+       "if our == nil => break", "if our.Hash != momentums[start].Momentum.Hash => break"] ∧
+    Gen.nrTopLevel =
+      ["if len(momentums) == 0 => return 0, nil", "for start < len(momentums)",
+       "if start == len(momentums) => return 0, nil", "if err != nil => return 0, err",
+       "if head.Previous() != ourFrontier.Identifier()", "range momentums", "return 0, nil"] ∧
+    Gen.nrSideBranch =
+      ["target, err := store.GetMomentumByHeight(head.Height - 1)", "if err != nil => return 0, err",
+       "if target == nil => return 0, errors.Errorf(\"can't link momentums to insert. First momentum Prev is %v but we have no momentum at that height\")",
+       "if target.Identifier() != head.Previous() => return 0, errors.Errorf(\"can't link momentums to insert. First momentum Prev is %v but he have %v\")",
+       "if ourFrontier.Height-target.Height > 30 => return 0, errors.Errorf(\"can't rollback to %v. Too far. Frontier is %v. Wanted to be able to insert %v\")",
+       "if tail.Height <= ourFrontier.Height => return 0, errors.Errorf(\"won't insert side-chain which is not longer\")",
+       "err = c.chain.RollbackTo(insert, target.Identifier())",
+       "if err != nil => return 0, errors.Errorf(\"unable to rollback to %v. Reason:%v\")"] ∧
+    Gen.nrRollbackCalls = 1 ∧ Gen.nrRollbackCallsInSideBranch = 1 ∧
+    Gen.nrLoopErrBranches =
+      ["return index + start, err", "return index + start, err", "return index + start, err",
+       "return index + start, err"] ∧
+    Gen.InsertChainWindow = 30 ∧ Gen.InsertChainWindowOp = ">" ∧ Gen.InsertChainLongerOp = "<=" ∧
+    Gen.InsertChainRollbackBeforeApplyLoop = true := by decide
+
+set_option maxRecDepth 100000 in
+/-- `AddMomentumTransaction` (model: the `prev = frontier` test of `stepMomentum` / the height test of `stepR`): a momentum is
+    committed only on top of the frontier — the test stands before `chainManager.Add` (9a5065f: siblings are refused) -/
+theorem momentum_only_on_frontier :
+    Gen.nrAddMomentumPrevTests =
+      ["if frontier := c.getFrontierStore().Identifier(); momentum.Previous() != frontier => return errors.Errorf(\"can't insert momentum %v. previous doesn't match with current frontier %v\")"] ∧
+    Gen.nrAddMomentumCommitsBeforePrevTest = false := by decide
+
+/-- `RollbackTo` + `accountPool.DeleteMomentum` (model: `rollback`, `keepPool = false`): every popped momentum is announced
+    once to the listeners after the pop, and the account pool answers by replacing ALL its managers with an empty map —
+    nothing of the deleted momentum is put back -/
+theorem rollback_drops_whole_pool :
+    Gen.PoolDeleteMomentumStmts =
+      ["ap.changes.Lock()", "defer ap.changes.Unlock()", "ap.managers = make(map[types.Address]db.Manager)"] ∧
+    Gen.RollbackToPopCalls = 1 ∧ Gen.RollbackToNotifyCalls = 1 ∧ Gen.RollbackToPopAt = 7 ∧ Gen.RollbackToNotifyAt = 9 ∧
+    Gen.ChainRegistersAccountPool = true := by decide
 
 end ZV.C06Reorg
